@@ -105,14 +105,18 @@ class NetworkService(ModelElement):
                         self.__service_guardrails(sliver, i)
                         self.connect_interface(interface=i)
                         connected_interfaces.append(i)
-                    except TopologyException as e:
+                    except Exception as e:
+                        # whatever went wrong (not only a TopologyException: a stale interface handle
+                        # raises PropertyGraphQueryException, an over-long derived name ValueError),
                         # disconnect previously connected interfaces
                         for ii in connected_interfaces:
                             self.disconnect_interface(ii)
-                        # remove sliver from the graph
+                        # remove sliver from the graph (with any service port the failed connect left)
                         self.topo.graph_model.remove_ns_with_cps_and_links(node_id=self.node_id)
                         # re-throw the exception
-                        raise TopologyException(str(e))
+                        if isinstance(e, TopologyException):
+                            raise TopologyException(str(e))
+                        raise
         else:
             assert node_id is not None
             super().__init__(name=name, node_id=node_id, topo=topo)
